@@ -149,7 +149,12 @@ func (r *run) generate() {
 				return s
 			}(),
 			func() *scenario { s := baseScenario(seed(), signer, signer); s.Ext = true; return s }(),
-			func() *scenario { s := baseScenario(seed(), signer, signer); s.OldFormat = true; s.Prev = true; return s }(),
+			func() *scenario {
+				s := baseScenario(seed(), signer, signer)
+				s.OldFormat = true
+				s.Prev = true
+				return s
+			}(),
 		}
 		for bi, b := range bases {
 			codecs := []string{""}
